@@ -1,6 +1,6 @@
 """regex crate API over rx.py"""
 import z3
-from engine import (RString, RVec, Agg, Ref, Opaque, UNIT, NONE, SOME, OK, ERR, TUP, Unsupported, is_sym, lit)
+from engine import (RString, RVec, Agg, Ref, Opaque, UNIT, NONE, SOME, OK, ERR, TUP, Unsupported, StepBudget, is_sym, lit)
 import rx
 from models import ListIter, STOP
 
@@ -10,6 +10,14 @@ class Rx:
         self.pat = pat
         self.ast, self.ng, self.names = rx.parse(pat)
     def __repr__(self): return 'Regex(%r)' % self.pat
+
+TEXT_LIMIT = 64
+def guard_len(I, text):
+    # regex work is not counted in MIR steps: a text that keeps growing in a rewrite loop is a budget matter
+    if len(text) > TEXT_LIMIT:
+        raise StepBudget('text grew beyond %d characters in a regex rewrite' % TEXT_LIMIT)
+    I.steps += 20 * len(text)
+    return text
 
 def pat_text(I, v):
     s = I.str_of(v)
@@ -45,7 +53,7 @@ def install(prog):
     @M('regex::Regex::is_match', 'Regex::is_match')
     def _(I, a, c):
         r = I.deref(a[0]).data
-        return rx.is_match(r.pat, I.str_of(a[1]))
+        return rx.is_match(r.pat, guard_len(I, I.str_of(a[1])))
     @M('regex::Regex::captures', 'Regex::captures')
     def _(I, a, c):
         r = I.deref(a[0]).data; text = I.str_of(a[1])
@@ -97,7 +105,7 @@ def install(prog):
     def _(I, a, c):
         t, s, e = I.deref(a[0]).data; return byte_off(I, t, e)
     def replace(I, a, c, all_):
-        r = I.deref(a[0]).data; text = I.str_of(a[1])
+        r = I.deref(a[0]).data; text = guard_len(I, I.str_of(a[1]))
         rep = I.deref(a[2])
         if not isinstance(rep, (tuple, RString)): raise Unsupported('Replacer %r' % (rep,))
         tpl = I.str_of(rep)
